@@ -180,5 +180,7 @@ def run(ctx):
     tasks += [c03.config_task(ei, ab, 'explicit', 0) for ei in (True, False) for ab in (True, False)]
     tasks += [('update_after_swap', update_after_swap_task), ('collect_protocol_fees', collect_protocol_fees_task(False)),
               ('collect_protocol_fees_v2', collect_protocol_fees_task(True)), ('handler:single', c17.single_task(False))]
+    from props import c14w       # adaptive-fee pools: every step is charged the rate the manager returns in THAT iteration (A2)
+    tasks += c14w.tasks()
     ctx.parallel(tasks, max_procs=8)
     ctx.run_kani(['c06.rs'])
